@@ -206,7 +206,7 @@ def replay(beh, tier="quick", seed=0, opts=None):
         if not hist:
             for i in ses.compiled:
                 exp = beh["expect"][i]
-                if "table" not in exp or (targets is not None and ops[i] not in targets):
+                if "table" not in exp:
                     continue
                 cc = ses.compiled[i]
                 batches = [("all", list(range(len(rows))))]
@@ -285,7 +285,7 @@ def run_history(ses, beh, built, rows, floating, h, targets):
             elif a == "eval":
                 for i in ses.compiled:
                     tab = step["expect"][i]
-                    if not tab or (targets is not None and ses.ops[i] not in targets):
+                    if not tab:
                         continue
                     ses.compare(i, tab, rows, allr, "all", floating, step=n)
         except Exception as e:  # pylint: disable=broad-except
